@@ -105,7 +105,7 @@ def run(
     cfgname = f"{module}__{int(time.time()*1000)%1000000}.cfg"
     (workdir / cfgname).write_text(cfg)
     meta = workdir / f"meta_{cfgname[:-4]}"
-    jopts = [f"-Xmx{heap}", "-XX:+UseParallelGC"]
+    jopts = [f"-Xmx{heap}", "-XX:+UseParallelGC", "-Xss32m"]      # deep recursive operators on long chains
     if dfs:
         jopts.append("-Dtlc2.tool.queue.IStateQueue=StateDeque")
     cmd = ["java", *jopts, "-cp", JAVA_CP, "tlc2.TLC",
